@@ -554,6 +554,12 @@ type partial struct {
 func (c *Ctx) IsChild() bool { return os.Getenv("VERIF_JOB") != "" }
 
 func (c *Ctx) Jobs(name string, n int, body func(job int)) {
+	c.JobsW(name, n, 1, body)
+}
+
+// JobsW is Jobs with workersPerJob in-process workers in every child (for
+// searches whose state set must be shared and whose code allocates little).
+func (c *Ctx) JobsW(name string, n int, workersPerJob int, body func(job int)) {
 	if jb := os.Getenv("VERIF_JOB"); jb != "" {
 		i := strings.LastIndex(jb, ":")
 		if i < 0 || jb[:i] != name {
@@ -576,7 +582,11 @@ func (c *Ctx) Jobs(name string, n int, body func(job int)) {
 		work = os.TempDir()
 	}
 	var wg sync.WaitGroup
-	sem := make(chan struct{}, Workers())
+	par := Workers() / workersPerJob
+	if par < 1 {
+		par = 1
+	}
+	sem := make(chan struct{}, par)
 	var mergeMu sync.Mutex
 	for j := 0; j < n; j++ {
 		wg.Add(1)
@@ -588,7 +598,7 @@ func (c *Ctx) Jobs(name string, n int, body func(job int)) {
 			os.Remove(pf)
 			cmd := exec.Command(os.Args[0], os.Args[1:]...)
 			cmd.Env = append(os.Environ(), fmt.Sprintf("VERIF_JOB=%s:%d", name, j), "VERIF_PARTIAL="+pf,
-				"VERIF_WORKERS=1", "GOMAXPROCS=2", "VERIF_CPUPROFILE=")
+				fmt.Sprintf("VERIF_WORKERS=%d", workersPerJob), fmt.Sprintf("GOMAXPROCS=%d", workersPerJob+1), "VERIF_CPUPROFILE=")
 			var stderr, stdout strings.Builder
 			cmd.Stderr = &stderr
 			cmd.Stdout = &stdout
